@@ -17,7 +17,7 @@
 from types import FrameType
 from typing import List
 
-from deep.logging import logging
+from deep import logging
 
 from deep.api.tracepoint.trigger import Location
 
